@@ -57,18 +57,23 @@ CorePool ==
         Ctx("matchdef", "-", "-", "-", "obj"), Ctx("switch", "key", "-", "none", "absent"),
         Ctx("checkspec", "-", "-", "-", "-")}
 \* constructs whose user code *is* the fault leaf (innermost position, user exceptions only)
-LeafPool == {Ctx("checkval", "-", "-", "-", "-"), Ctx("pathget", "-", "-", "-", "-")}
+\* geniter: the target is a generator raising at its 1st / 2nd next() under a [subspec] spec
+LeafPool == {Ctx("checkval", "-", "-", "-", "-"), Ctx("pathget", "-", "-", "-", "-"),
+             Ctx("geniter", "k1", "-", "-", "-"), Ctx("geniter", "k2", "-", "-", "-")}
 
 Pool(n) == IF Rich \/ n <= 1 THEN RichPool ELSE CorePool
 
 Defaults == {"absent", "obj", "none"}
+ObjDefaults == {"list", "dictT", "t"}      \* containers / T-like defaults: "the default object itself"
 Skips == {"absent", "exact", "other", "tuple", "tuple_non", "glomerror", "exception", "keyerror", "base"}
 Kw(d, s, g) == [default |-> d, skip |-> s, debug |-> g]
 Kws == CASE KwMode = "full" -> {Kw(d, s, g) : d \in Defaults, s \in Skips, g \in BOOLEAN}
-         [] KwMode = "mid"  -> {Kw(d, s, FALSE) : d \in Defaults, s \in {"absent", "exact", "other", "glomerror"}}
+                               \cup {Kw(d, s, FALSE) : d \in ObjDefaults, s \in Skips}
+         [] KwMode = "mid"  -> {Kw(d, s, FALSE) : d \in Defaults \cup ObjDefaults, s \in {"absent", "exact", "other", "glomerror"}}
                                \cup {Kw("absent", "absent", TRUE), Kw("obj", "exact", TRUE), Kw("none", "keyerror", FALSE)}
          [] OTHER           -> {Kw("absent", "absent", FALSE), Kw("obj", "absent", FALSE),
-                                Kw("absent", "exact", TRUE), Kw("none", "glomerror", FALSE)}
+                                Kw("absent", "exact", TRUE), Kw("none", "glomerror", FALSE),
+                                Kw("list", "exception", FALSE), Kw("dictT", "absent", FALSE)}
 
 \* what the laws say about the mechanism's outcome (for the replay harness only; the machine
 \* itself is GlomErrors)
